@@ -112,6 +112,7 @@ var faultViews = map[string][]string{
 	"C01": {"split-view-under-fault"},
 	"C04": {"handed-out-under-fault"},
 	"C06": {"false-success", "state-changed-on-error"},
+	"C08": {"suffix-growth-refused", "blocked", "wedge"},
 	"C09": {"fault-free-mismatch", "suffix-fork-not-refused", "suffix-growth-refused", "wrong-verdict-under-fault", "accepted-under-fault"},
 	"C16": {"read-wrong-bytes", "read-logs-wrong", "read-fault-reported-as-not-found", "suffix-read", "read-failed-without-fault"},
 }
